@@ -14,5 +14,9 @@ EnvA == [x |-> B(TRUE), y |-> B(FALSE), n |-> I(2), m |-> I(1)]
 EnvB == [x |-> B(FALSE), y |-> B(TRUE), n |-> I(5), m |-> I(3)]
 EnvC == [x |-> B(TRUE), y |-> B(TRUE), n |-> I(2), m |-> I(2)]
 EnvOf(p) == CASE p = 1 -> EnvA [] p = 2 -> EnvB [] OTHER -> EnvC
+\* a process that runs TryEval does so with one variable unavailable (the harness has the same rule)
+AllVars == {"x", "y", "n", "m"}
+Unavail(p) == IF p % 2 = 0 THEN {"y"} ELSE {"n"}
+AvOf(p) == AllVars \ Unavail(p)
 
 =============================================================================
